@@ -1,5 +1,5 @@
 #!/bin/sh
-# tools/psweep.sh N id... : runs the seeded changes /tmp/mut/<id>/out/patch.diff against their property's quick check, N at a
+# tools/psweep.sh N id[:prop]... : runs the seeded changes /tmp/mut/<id>/out/patch.diff against their property's quick check, N at a
 # time, in private copies (a git worktree of /repo's HEAD + a copy of /verif per worker, as tools/recheck_parallel.sh does);
 # /repo is not touched. Writes /tmp/mut/<id>.try (one line) for tools/save_mutant.py.
 N=$1; shift
@@ -17,15 +17,17 @@ k=0
 while [ $k -lt $N ]; do
   (
     export VERIF_REPO=/tmp/psweep/r$k VERIF_OP_TIMEOUT=${VERIF_OP_TIMEOUT:-5}
-    while read id; do
+    while read spec; do
+      id=${spec%%:*}; prop=${spec##*:}   # "C02" or "C02:C03" (change C02 against the check of C03)
       ( cd /tmp/psweep/r$k && git apply /tmp/mut/$id/out/patch.diff ) || { echo "== $id patch-does-not-apply" > /tmp/mut/$id.try; continue; }
       s=$(date +%s)
-      out=$(cd /tmp/psweep/v$k && timeout 1500 bin/check $id 2>&1); rc=$?
+      out=$(cd /tmp/psweep/v$k && timeout 1500 bin/check $prop 2>&1); rc=$?
       e=$(date +%s)
       ( cd /tmp/psweep/r$k && git checkout -q -- . && git clean -fdq src )
-      mkdir -p /verif/replays; cp /tmp/psweep/v$k/replays/$id-*.json /verif/replays/ 2>/dev/null
-      echo "== $id rc=$rc :: $(echo "$out" | grep -E 'VIOLATION|quick:' | tr '\n' ' ' | sed "s#/tmp/psweep/v$k#/verif#g" | cut -c1-400)" > /tmp/mut/$id.try
-      echo "$(cut -c1-330 /tmp/mut/$id.try) [$((e-s))s]"
+      mkdir -p /verif/replays; cp /tmp/psweep/v$k/replays/$prop-*.json /verif/replays/ 2>/dev/null
+      f=/tmp/mut/$id.try; [ "$id" != "$prop" ] && f=/tmp/mut/$id.$prop.try
+      echo "== $prop rc=$rc :: $(echo "$out" | grep -E 'VIOLATION|quick:' | tr '\n' ' ' | sed "s#/tmp/psweep/v$k#/verif#g" | cut -c1-400)" > $f
+      echo "$spec $(cut -c1-330 $f) [$((e-s))s]"
     done < /tmp/psweep/list$k.txt
   ) &
   k=$((k+1))
